@@ -1250,7 +1250,7 @@ Example restart_hypotheses_nonvacuous :
   readableb nop 10 = true /\ readableb nop 99 = true /\
   good_ab nop 99 0 (fun _ => true) 10 20 = true /\ good_ab nop 99 0 (fun _ => true) 10 30 = true /\
   (let s := fst (BpMachineProofs.wrun tr_w [Add 20; Add 30; Continue; Continue]) in
-   uviews (r_bps (s_reg s)) = [(2, 30); (1, 20)] /\ p_pc (s_proc s) = 30) /\
+   uviews (r_bps (s_reg s)) = [(1, 20); (2, 30)] /\ p_pc (s_proc s) = 30) /\
   (let x := BpMachineProofs.wrun tr_w [Add 20; Add 30; Continue; Continue; Restart] in
    uviews (r_bps (s_reg (fst x))) = [(1, 20); (2, 30)] /\ p_pc (s_proc (fst x)) = 20 /\
    last_error (snd x) = Some (OStop (StopBp 20 1)) /\ next_hit tr_w [30; 20] 1 = Some 1%nat).
@@ -1289,7 +1289,7 @@ Example external_survives_example :
              map (fun th => dr7_quiet (h_dr7 (snd th))) (threads (w_wp x')) = [true; true; true]
   | _ => False
   end.
-Proof. vm_compute. auto. Qed.
+Proof. vm_compute. auto 10. Qed.
 
 (* the life_check checker accepts what the model produces and flags a wrong exit code *)
 Example life_check_example :
